@@ -52,7 +52,7 @@ TRUTH = [
     "$[?@, ?!@]", "$[0, ?@.a, 0]", "$..[?@.a]", "$..[?@ == 0]", "$[?@.a][?@ == 0]", "$[?@[1:] && @[-1]]",
 ]
 # family "iter": root array/object with up to 3 children from a small variety
-ITER = ["$[?@]", "$[?@.a]", "$[?@.a == 1]", "$[?@ > 0]", "$[?@.a < @.b]", "$[?!@.a]", "$[?@.a, ?@.b]", "$..[?@.a]", "$[?@.a].a", "$[?count(@.*) == 1]", "$[?@.a || @ == 0]"]
+ITER = ["$[?@ == 1]", "$[?@ == true]", "$[?@ != 0]", "$[?@]", "$[?@.a]", "$[?@.a == 1]", "$[?@ > 0]", "$[?@.a < @.b]", "$[?!@.a]", "$[?@.a, ?@.b]", "$..[?@.a]", "$[?@.a].a", "$[?count(@.*) == 1]", "$[?@.a || @ == 0]"]
 _COMPILED: Dict[str, object] = {}
 
 
@@ -104,7 +104,8 @@ def h_iter() -> Union[bool, str]:
     for j in range(n):
         c = hcommon.sym_choice("kid%d" % j, 4)
         if c == 0:
-            kids.append(hcommon.sym_scalar("v%d" % j, 2, intbound=1000))
+            # a primitive sibling of any kind (a number next to a boolean, a string next to null, ...)
+            kids.append(hcommon.sym_scalar("v%d" % j, None, strlen=1, intbound=1000))
         elif c == 1:
             kids.append({"a": hcommon.sym_scalar("v%d" % j, 2, intbound=1000)})
         elif c == 2:
@@ -146,7 +147,7 @@ LOGIC_SEEDS = [s for s in FILTER_SEEDS if "&&" in s or "||" in s or "!" in s or 
 
 def obligations(tier: str):
     obls = []
-    t = 300 if tier == "quick" else 3000
+    t = 300 if tier == "quick" else 1200
     for qi, q in enumerate(TRUTH):
         for ck in range(7):
             wraps = ["array"] if tier == "quick" else ["array", "object"]
